@@ -773,12 +773,76 @@ def run_case(case: dict, stats: Stats | None = None) -> dict:
             raise seam.HarnessError(f"kill model leaked effects during unwinding: {d}")
     viols = judge(case, r, acc)
     log = sim.event_log()
+    if case.get("followup") and sim.crash_op is None and not sim.powerlost and len(r["actors"]) == 1:
+        fv, flog = _followup(case, r)
+        viols = viols + fv
+        log = log + flog
+        if stats is not None:
+            stats.inc("followup_calls")
     if stats is not None:
         _account(stats, case, r, viols)
     return {"violations": viols, "log": log, "digest": digest(log), "fired": [_plan(f) for f in sim.fired],
             "tape": list(tape.values), "nops": [a.op_count for a in r["actors"]],
             "outcomes": [a.outcome for a in r["actors"]], "results": [_brief_result(a) for a in r["actors"]],
             "ops0": [(op.idx, op.name) for op in r["actors"][0].ops]}
+
+
+FOLLOWUP_TEXT = '===DOC===\nMETA:\n  TYPE::TEST\n  VERSION::"1.0"\nMARK::followup\nK0::after_the_failure\n===END===\n'
+
+
+def _followup(case: dict, r: dict):
+    """The SAME process serves one more, healthy, write to the same target after the (faulted) call returned: whatever the
+    failed call left behind IN THE PROCESS (a remembered refusal, a registry of names, a cached descriptor, a lock object) must
+    not make a later call install wrong bytes, change permission bits, leave files or touch anything else."""
+    sc, root, trel = r["sc"], r["root"], r["target_rel"]
+    target = os.path.join(root, trel)
+    pre = fsmodel.snapshot(root)
+    node = pre.get(trel)
+    if node is not None and node[0] != "f":
+        return [], []
+    entry = "tool" if entry_of(sc, None) == "tool" else "atomic"
+    sim = seam.Simulation(root, Tape(values=[]), seam.Knobs())
+    if entry == "tool":
+        from octave_mcp.mcp.write import WriteTool
+
+        tool = WriteTool()
+        a = sim.add_actor("followup", lambda: drive(tool.execute(target_path=target, content=FOLLOWUP_TEXT)))
+    else:
+        from octave_mcp.core.file_ops import atomic_write_octave
+
+        text = docs_canonical_or_raw(FOLLOWUP_TEXT)
+        a = sim.add_actor("followup", lambda: atomic_write_octave(target, text, None))
+    sim.run()
+    if sim.bypass:
+        raise seam.HarnessError(f"seam bypass: {sim.bypass[:3]}")
+    post = fsmodel.snapshot(root)
+    st, h = classify(entry, a)
+    viols = []
+
+    def V(clause, detail):
+        viols.append({"clause": clause, "detail": "follow-up call in the same process: " + detail,
+                      "signature": f"{clause}|followup|{entry}|{st}"})
+
+    tn = post.get(trel)
+    if st == "success":
+        if tn is None or tn[0] != "f" or (h and sha_bytes(tn[2]) != h):
+            V("A3.hash", f"reported success/{str(h)[:10]} but the target is {_n(tn)}")
+        if node is not None and tn is not None and tn[0] == "f" and (tn[1] & 0o777) != (node[1] & 0o777):
+            V("A3.mode", f"permission bits of the existing file changed {oct(node[1])} -> {oct(tn[1])} (first call: {_brief_result(r['actors'][0])}, "
+                         f"faults {[(f['errno'] or f['kind'], f['cls']) for f in r['sim'].fired]})")
+    else:
+        if (tn[:3] if tn else None) != (node[:3] if node else None):
+            V("A2.target", f"returned {_brief_result(a)} and the target changed: {_n(node)} -> {_n(tn)}")
+    for rel in sorted(set(pre) | set(post)):
+        if rel == trel:
+            continue
+        b_, a_ = pre.get(rel), post.get(rel)
+        if (b_[:3] if b_ else None) != (a_[:3] if a_ else None):
+            if b_ is None and a_ is not None and a_[0] == "d" and trel.startswith(rel + "/"):
+                continue  # a missing parent directory created by the successful write
+            V("A4" if b_ is not None else "A2.temp", f"entry {rel!r}: {_n(b_)} -> {_n(a_)}")
+            break
+    return viols, [["followup", entry, st]] + sim.event_log()
 
 
 def _plan(f):
@@ -1035,6 +1099,8 @@ def _sweep(unit, stats, viols):
             f1 = {"actor": 0, "at": k, **p}
             case = dict(case0)
             case["faults"] = [f1]
+            if p["kind"] == "errno" and not p.get("sticky") and not unit.get("pairs"):
+                case["followup"] = True  # the process lives on and serves one more write
             res = _run_and_collect(case, stats, viols)
             stats.inc("sweep_single_runs" if not unit.get("pairs") else "sweep_pair_first_runs")
             if not unit.get("pairs") or p["kind"] in ("kill", "powerloss") or p.get("sticky"):
